@@ -73,6 +73,9 @@ type vScenario struct {
 	Steps  []vStep `json:"steps"`
 	// Verbose: the server runs with -verbose (debug logging formats errors and their causes: more code that input reaches)
 	Verbose bool `json:"verbose"`
+	// Burst: every reload is requested by TWO SIGHUPs a few milliseconds apart (the second arrives while the first reload is
+	// still running: configurations carry filler keys so that a reload takes a while)
+	Burst bool `json:"burst"`
 }
 type vInput struct {
 	Scenarios []vScenario `json:"scenarios"`
@@ -84,6 +87,7 @@ type drv struct {
 	tr          *hx.Trace
 	bin         string
 	verbose     bool
+	fill        int // filler keys per service / legacy configuration (burst scenarios)
 	dir         string
 	ports       []int
 	mport       int
@@ -119,6 +123,10 @@ func (d *drv) yaml(c vCfg) string {
 			k := vKeys[lk[1]]
 			fmt.Fprintf(&b, "  - id: %s\n    port: %d\n    cipher: %s\n    secret: %s\n", k.id, d.ports[lk[0]-1], k.cipher, k.secret)
 		}
+		// filler keys nobody uses: they only make a (re)load take noticeable time
+		for i := 0; i < d.fill; i++ {
+			fmt.Fprintf(&b, "  - id: filler-%d\n    port: %d\n    cipher: chacha20-ietf-poly1305\n    secret: filler-secret-%d\n", i, d.ports[c.Legacy[0][0]-1], i)
+		}
 	}
 	if len(c.Svcs) > 0 {
 		b.WriteString("services:\n")
@@ -131,6 +139,9 @@ func (d *drv) yaml(c vCfg) string {
 			for _, ki := range s.Ks {
 				k := vKeys[ki]
 				fmt.Fprintf(&b, "      - id: %s\n        cipher: %s\n        secret: %s\n", k.id, k.cipher, k.secret)
+			}
+			for i := 0; i < d.fill; i++ {
+				fmt.Fprintf(&b, "      - id: filler-%d\n        cipher: chacha20-ietf-poly1305\n        secret: filler-secret-%d\n", i, i)
 			}
 		}
 	}
@@ -218,6 +229,30 @@ func (d *drv) waitLoad(okBefore, failBefore int) (bool, error) {
 		time.Sleep(2 * time.Millisecond)
 	}
 	return false, errors.New("no load result in the log within 10s")
+}
+
+// waitSecond: after two SIGHUPs in a row the server either took both (two "SIGHUP received" lines: then two load results
+// must follow) or the kernel/runtime merged them into one (the signal channel holds one pending signal).  A reload that was
+// started and never reports a result is an error.
+func (d *drv) waitSecond(hupBefore, okBefore, failBefore int) error {
+	deadline := time.Now().Add(10 * time.Second)
+	quietSince := time.Now()
+	for time.Now().Before(deadline) {
+		received := d.logCount("SIGHUP received") - hupBefore
+		done := d.logCount("Loaded config.") - okBefore + d.logCount("Failed to update server") - failBefore
+		if !d.alive() {
+			return errors.New("process exited after the second SIGHUP")
+		}
+		if received >= 2 && done >= 2 {
+			if d.logCount("Stopped all listeners for running config.") >= d.logCount("Loaded config.")-1 {
+				return nil
+			}
+		} else if received < 2 && done >= 1 && time.Since(quietSince) > 700*time.Millisecond {
+			return nil // the two signals were merged into one reload
+		}
+		time.Sleep(2 * time.Millisecond)
+	}
+	return errors.New("a reload requested by the second of two SIGHUPs did not report a result within 10s")
 }
 
 var labelRe = regexp.MustCompile(`([a-zA-Z_][a-zA-Z0-9_]*)="([^"]*)"`)
@@ -547,8 +582,13 @@ func (d *drv) run(sc vScenario) {
 	d.logLines = nil
 	d.clientPorts = nil
 	d.verbose = sc.Verbose
+	d.fill = 0
+	if sc.Burst {
+		d.fill = 2500
+	}
 	d.tr.Emit(map[string]any{"ev": "Scenario", "id": sc.ID, "replay": sc.Replay, "verbose": sc.Verbose})
 	started := false
+	nload := 0
 	recorded := map[string][]byte{}
 	frn0 := [][]interface{}{}
 	for _, st := range sc.Steps {
@@ -573,10 +613,22 @@ func (d *drv) run(sc vScenario) {
 						time.Sleep(2 * time.Millisecond)
 					}
 				}
+			} else if sc.Burst && len(st.Frn) == 0 {
+				hupB := d.logCount("SIGHUP received")
+				d.cmd.Process.Signal(syscall.SIGHUP)
+				// back to back (both reloads then run their steps almost at the same time, if the server lets them) up to
+				// well inside the first reload
+				time.Sleep([]time.Duration{0, 200 * time.Microsecond, time.Millisecond, 5 * time.Millisecond, 20 * time.Millisecond, 50 * time.Millisecond}[(nload+sc.ID)%6])
+				d.cmd.Process.Signal(syscall.SIGHUP)
+				ok, err = d.waitLoad(okB, failB)
+				if err == nil {
+					err = d.waitSecond(hupB, okB, failB)
+				}
 			} else {
 				d.cmd.Process.Signal(syscall.SIGHUP)
 				ok, err = d.waitLoad(okB, failB)
 			}
+			nload++
 			for _, c := range held {
 				c.Close()
 			}
